@@ -229,6 +229,64 @@ def rule_s3(ctx):
     ctx.check(ok, "S3-state-keys", f"{LANG}:SMTFormula.__setstate__", "restores __dict__ and formula", site(ss), "__setstate__ must restore the attribute dict and the parsed formula", "dict and formula restored")
 
 
+def rule_s5(ctx, rule_prefix="S5", with_escape_char=True):
+    """Sanitiser flow: text handed to z3.parse_smt2_string (byte-oriented) must be ASCII-escaped; the writer's escape character must itself be escaped."""
+    n = 0
+    for rel in (LANG, Z3H, "src/isla/evaluator.py", "src/isla/solver.py", "src/isla/isla_predicates.py"):
+        m = ctx.repo.module(rel, "C17.S5")
+        for c in calls_in(m.tree):
+            if call_name(c) != "z3.parse_smt2_string" or not c.args:
+                continue
+            n += 1
+            a = c.args[0]
+            q = qual(c)
+            if q.endswith("is_protected_smtlib_keyword"):
+                ctx.ok(f"{rule_prefix}-non-ascii-escaped", f"{rel}:{q}", "probe of an identifier token", site(c), "argument is an ISLa ID token (ASCII by the lexer's ID rule)")
+                continue
+            ok = isinstance(a, ast.Call) and call_name(a) == "smt_escape_non_ascii"
+            ctx.check(ok, f"{rule_prefix}-non-ascii-escaped", f"{rel}:{q}", "text passes through smt_escape_non_ascii", site(c),
+                      f"`{src(a)[:60]}` is handed to z3.parse_smt2_string without replacing non-ASCII characters by \\u{{...}} escapes; the Z3 parser reads bytes, so 'ä' in a string literal becomes "
+                      "two characters (the literal no longer equals the tree text, and pickling/unparsing changes the constraint)", "escaped before parsing")
+    if n < 3:
+        raise Unrecognised("C17.S5", LANG, f"only {n} parse_smt2_string call sites found")
+    # escaper definition: every char >= 128 -> \u{hex}
+    f = ctx.repo.func(Z3H, "smt_escape_non_ascii", "C17.S5")
+    t = " ".join(src(f.body[-1]).split())
+    ok = "if ord(char) < 128 else" in t and "\\\\u{{" in t.replace("'", '"') or ("ord(char) < 128" in t and ":x}" in t)
+    ctx.check(ok, f"{rule_prefix}-non-ascii-escaped", f"{Z3H}:smt_escape_non_ascii", "chars >= 128 -> \\u{hex}", site(f), f"escaper body: {t[:120]}", "every non-ASCII character escaped in hex")
+    # the reader of as_string() undoes ALL unicode escapes
+    g = ctx.repo.func(Z3H, "smt_string_val_to_string", "C17.S5")
+    t = " ".join(src(g).split())
+    full = "re.sub(" in t and "[0-9a-fA-F]*" in t and "chr(int(" in t
+    only_null = ".replace('\\\\u{}', '\\x00')" in t and not full
+    if not full and not only_null:
+        raise Unrecognised("C17.S5", f"{Z3H}:smt_string_val_to_string", "unescape shape not recognised")
+    ctx.check(full, f"{rule_prefix}-as-string-unescaped", f"{Z3H}:smt_string_val_to_string", "all \\u{...} escapes of as_string() are undone", site(g),
+              "only the null byte escape is converted back: as_string() returns characters above Latin-1 as \\u{XXXX}, so a literal like \"€\" is compared as the 8-character text", "general unicode unescape")
+    h = ctx.repo.func(Z3H, "evaluate_z3_string_value", "C17.S5")
+    t = " ".join(src(h).split())
+    ctx.check("smt_string_val_to_string(expr)" in t and ".as_string()" not in t, f"{rule_prefix}-as-string-unescaped", f"{Z3H}:evaluate_z3_string_value", "fast-path literal value uses the unescaper", site(h),
+              "the fast path takes expr.as_string() without undoing unicode escapes", "via smt_string_val_to_string")
+    if not with_escape_char:
+        return
+    # writer: the escape character of the quote escape must be escaped as well (otherwise a literal ending in it is ambiguous)
+    w = ctx.repo.func(Z3H, "smt_expr_to_str", "C17.S5")
+    reps = []
+    for c in _replace_calls(w):
+        try:
+            reps.append((fold(c.args[0]), fold(c.args[1])))
+        except NotConstant:
+            pass
+    esc = next((b for a, b in reps if a == '"'), None)
+    if esc is None:
+        raise Unrecognised("C17.S5", f"{Z3H}:smt_expr_to_str", "quote escape not found")
+    esc_char = esc[0] if len(esc) == 2 else None
+    self_escaped = esc_char is None or any(a == esc_char and b != a for a, b in reps)
+    ctx.check(self_escaped, f"{rule_prefix}-escape-char-escaped", f"{Z3H}:smt_expr_to_str", f"escape character {esc_char!r} is itself escaped", site(w),
+              f"a double quote is written as {esc!r} but a literal {esc_char!r} is written verbatim: a string literal ending in {esc_char!r} is printed as \"...{esc_char}\" whose last two characters read as an escaped quote "
+              "(pickling v == 'a\\' raises Z3Exception on load; parse_isla rejects '(= v \"a\\\\\")')", "escape character escaped")
+
+
 def rule_s4(ctx):
     w = ctx.repo.func(CLI, "derivation_tree_to_json", "C17.S4")
     r = ctx.repo.func(CLI, "get_input_string", "C17.S4")
@@ -258,5 +316,6 @@ def run(ctx) -> str:
     ctx.guarded("S2", lambda: rule_s2(ctx))
     ctx.guarded("S3", lambda: rule_s3(ctx))
     ctx.guarded("S4", lambda: rule_s4(ctx))
+    ctx.guarded("S5", lambda: rule_s5(ctx))
     ctx.assume("z3.parse_smt2_string follows SMT-LIB 2.6 string literal syntax (\"\" for a quote)")
     return EXPLANATION
